@@ -6,8 +6,9 @@
      vgi_rpc/crypto.py                    seal_bytes / open_bytes envelope (version || nonce || ct+tag)
    The AEAD primitive and Python's bytes.decode("utf-8", "replace") are parameters (ideal-primitive hypotheses live in
    proof/L_StickyTok.v); [run_case] instantiates them with lookup tables of what the key holders really sealed.
-   Text (header values, server ids) is a list of code points; bytes are lists of N < 256; time is Z (the logical clock
-   of the harness is integral, so float arithmetic of the source is exact).
+   Text (header values, server ids) is a list of code points; bytes are lists of N < 256; time and TTLs are Z in
+   MILLISECONDS (the logical clock and the TTLs of the harness are multiples of 1 ms that are exact binary floats, so
+   the float arithmetic and comparisons of the source are exact); int(t) of the source is [tok_secs].
    Executable definitions only; proofs are in proof/L_StickyTok*.v. *)
 From Coq Require Import List NArith ZArith Bool.
 From VGI Require Import Bytes Layout.
@@ -197,8 +198,13 @@ Definition lost_code (l : lost) : N :=
 
 Inductive resolution := RNoToken | RResume (sid : bytes) | RLost (l : lost).
 
-(* one worker process: AEAD key (after crypto.normalize_key) and RpcServer.server_id (a str) *)
-Record worker := { w_key : bytes; w_id : list N }.
+(* one worker process: AEAD key (after crypto.normalize_key), RpcServer.server_id (a str), sticky_default_ttl (ms) *)
+Record worker := { w_key : bytes; w_id : list N; w_ttl : Z }.
+
+(* int(time.time()) / int(expires_at): truncation of seconds; struct.pack("<Q") of it *)
+Definition tok_secs (t : Z) : N := Z.to_N (Z.quot t 1000).
+(* _SessionRegistry.open: effective_ttl = self._default_ttl if ttl is None else ttl  (0 and negative TTLs are kept) *)
+Definition eff_ttl (w : worker) (ttl : option Z) : Z := match ttl with None => w_ttl w | Some t => t end.
 
 Record call_obs := { co_lost : option lost; co_dispatched : bool; co_session : option bytes; co_close_hdr : bool }.
 Record delete_resp := { dr_status : N; dr_close_hdr : bool }.
@@ -276,22 +282,22 @@ Section StickyModel.
 
   (* ctx.open_session(state, ttl) inside a method: registry.open, then _seal_session_token.
      None = the seal raised (server_id not encodable / longer than 255 bytes) AFTER the entry was registered. *)
-  Definition open_session (w : worker) (reg : registry) (now : Z) (i : identity) (ttl : Z) (sid nonce : bytes)
+  Definition open_session (w : worker) (reg : registry) (now : Z) (i : identity) (ttl : option Z) (sid nonce : bytes)
     : option (list N) * registry :=
-    let exp := (now + ttl)%Z in
+    let exp := (now + eff_ttl w ttl)%Z in
     let reg' := reg_insert reg sid (exp, principal_key i) in
     match utf8_encode (w_id w) with
     | None => (None, reg')
     | Some sb =>
         if MAX_SERVER_ID_LEN <? blen sb then (None, reg')
-        else (Some (b64u_encode (seal_bytes (session_plain (Z.to_N now) sb sid (Z.to_N exp)) (w_key w) (compute_aad i) nonce)),
+        else (Some (b64u_encode (seal_bytes (session_plain (tok_secs now) sb sid (tok_secs exp)) (w_key w) (compute_aad i) nonce)),
               reg')
     end.
 End StickyModel.
 
 (* ---------- histories over a world of workers (used by the theorems; the correspondence is step-wise) ---------- *)
 Inductive op :=
-| OpOpen (k : nat) (i : identity) (ttl : Z) (sid nonce : bytes)
+| OpOpen (k : nat) (i : identity) (ttl : option Z) (sid nonce : bytes)
 | OpCall (k : nat) (i : identity) (hdr : option (list N)) (closes : bool)
 | OpDelete (k : nat) (i : identity) (hdr : option (list N))
 | OpReap (k : nat)
@@ -328,7 +334,7 @@ Section History.
         match nth_error ws k, nth_error (wd_regs s) k with
         | Some w, Some reg =>
             let '(txt, reg') := open_session aead_seal w reg (wd_now s) i ttl sid nonce in
-            (upd k reg', EvMinted k i (Z.to_N (wd_now s)) sid (wd_now s + ttl)%Z nonce txt)
+            (upd k reg', EvMinted k i (tok_secs (wd_now s)) sid (wd_now s + eff_ttl w ttl)%Z nonce txt)
         | _, _ => (s, EvQuiet)
         end
     | OpCall k i hdr closes =>
@@ -389,19 +395,19 @@ Fixpoint tbl_text (t : list (bytes * list N)) (x : bytes) : list N :=
   end.
 
 (* ---------- correspondence entry point (one step from a snapshot of the real registry) ----------
-   input : ((key, server_id), registry snapshot, now, identity, step)
+   input : ((key, server_id, default ttl), registry snapshot, now, identity, step)      (times in ms)
    output: (observation as numbers, registry after) *)
 Inductive cstep :=
 | SCall (hdr : option (list N)) (closes : bool)
 | SDelete (hdr : option (list N))
-| SOpen (ttl : Z) (sid nonce : bytes)
+| SOpen (ttl : option Z) (sid nonce : bytes)
 | SReap
 | SShutdown.
 
 Definition ident_of (o : option (bytes * bytes)) : identity :=
   match o with None => Anon | Some (d, p) => Authd d p end.
 
-Definition case_in := ((bytes * list N) * registry * Z * option (bytes * bytes) * cstep)%type.
+Definition case_in := ((bytes * list N * Z) * registry * Z * option (bytes * bytes) * cstep)%type.
 (* obs: [kind; a; b; c] ++ payload
      call   : [1; lost code (0 = none); dispatched; close header] ++ session id (empty = none bound)
      delete : [2; status; close header; 0]
@@ -410,8 +416,8 @@ Definition case_in := ((bytes * list N) * registry * Z * option (bytes * bytes) 
 Definition b2n (b : bool) : N := if b then 1 else 0.
 Definition run_case (aead : list aead_row) (texts : list (bytes * list N)) (codec : sid_codec) (c : case_in)
   : list N * registry :=
-  let '(((key, sid_str), reg), now, ident, st) := c in
-  let w := {| w_key := key; w_id := sid_str |} in
+  let '((((key, sid_str), dttl), reg), now, ident, st) := c in
+  let w := {| w_key := key; w_id := sid_str; w_ttl := dttl |} in
   let i := ident_of ident in
   match st with
   | SCall hdr closes =>
